@@ -1,3 +1,4 @@
+import collections
 import datetime
 import decimal
 import os
@@ -80,7 +81,7 @@ class SQLDumper(DumperBase):
         self.batch_size = options.get('batch_size', 1000)
         self.use_bloom_filter = options.get('use_bloom_filter', True)
 
-    def normalize_for_engine(self, dialect, resource, schema_descriptor):
+    def normalize_for_engine(self, dialect, resource, schema_descriptor, originals):
         actions = {}
         for field in schema_descriptor['fields']:
             if field['type'] in ['array', 'object']:
@@ -88,9 +89,13 @@ class SQLDumper(DumperBase):
                 actions.setdefault(field['name'], []).extend(OBJECT_FIXERS[dialect])
 
         for row in resource:
-            for name, action_list in actions.items():
-                for action in action_list:
-                    row[name] = action(row.get(name))
+            if actions:
+                # the engine gets a converted copy, the row itself continues downstream unchanged
+                originals.append(row)
+                row = dict(row)
+                for name, action_list in actions.items():
+                    for action in action_list:
+                        row[name] = action(row.get(name))
 
             yield row
 
@@ -128,19 +133,23 @@ class SQLDumper(DumperBase):
                     update_keys = schema_descriptor.get('primaryKey', [])
             logging.info('Writing to DB %s -> %s (mode=%s, keys=%s)',
                          resource_name, table_name, mode, update_keys)
-            return map(self.get_output_row,
+            originals = collections.deque()
+            return map(lambda written: self.get_output_row(written, originals),
                        storage.write(
                            '',
                            self.normalize_for_engine(self.engine.dialect.name,
-                                                     resource, schema_descriptor),
+                                                     resource, schema_descriptor, originals),
                            keyed=True, as_generator=True,
                            update_keys=update_keys,
                            buffer_size=self.batch_size,
                            use_bloom_filter=self.use_bloom_filter,
                        ))
 
-    def get_output_row(self, written):
+    def get_output_row(self, written, originals):
         row, updated, updated_id = written.row, written.updated, written.updated_id
+        if originals:
+            # written rows come back in input order: hand on the unconverted row
+            row = originals.popleft()
         if self.updated_column:
             row[self.updated_column] = updated
         if self.updated_id_column:
